@@ -257,6 +257,8 @@ pub enum LenClass {
     NearMax(i64),
     AboveMax,
     Exact(u32),
+    /// 2^32 bytes or more: the counter is saturated, the length is unknown
+    Saturated,
 }
 
 #[derive(Clone, Debug, PartialEq, Eq, serde::Serialize, serde::Deserialize)]
@@ -281,6 +283,7 @@ impl StateSpec {
             LenClass::NearMax(d) => (vmodel::MAX_LEN as i64 + *d) as u64,
             LenClass::AboveMax => vmodel::MAX_LEN + 1 + rng.below((1u64 << 32) - vmodel::MAX_LEN - 1),
             LenClass::Exact(n) => *n as u64,
+            LenClass::Saturated => return 1u64 << 32,
         };
         n.clamp(4, u32::MAX as u64)
     }
@@ -372,6 +375,7 @@ pub fn state_strategy(v: Variant) -> BoxedStrategy<StateSpec> {
         2 => Just(LenClass::Big),
         2 => (-3i64..=3).prop_map(LenClass::NearMax),
         1 => Just(LenClass::AboveMax),
+        1 => Just(LenClass::Saturated),
     ];
     (buckets, len, any::<u64>()).prop_map(|(buckets, len, seed)| StateSpec { buckets, len, seed }).boxed()
 }
@@ -448,6 +452,10 @@ pub enum Mut {
     Extend(Vec<u8>),
     InsertAt(u16, u8),
     RemoveAt(u16),
+    /// prepend / append a short affix a lenient front end might strip (`trim*`, `strip_prefix` in a
+    /// loop, `trim_start_matches("T1")`, line ends, radix markers)
+    Prepend(u8),
+    Append(u8),
     /// overwrite k consecutive bytes, starting at offset p (literal when p < 16, else scaled to
     /// the string), by one k-byte UTF-8 character: the byte length stays what it was
     Utf8At(u16, u8),
@@ -525,6 +533,15 @@ impl TextSpec {
                         s.remove(p);
                     }
                 }
+                Mut::Prepend(k) => {
+                    const PRE: &[&[u8]] = &[b"T1", b"T1T1", b"t1", b" ", b"\t", b"T", b"1", b"0x", b"\n", b"+", b"\xef\xbb\xbf"];
+                    let a = PRE[*k as usize % PRE.len()];
+                    s.splice(0..0, a.iter().copied());
+                }
+                Mut::Append(k) => {
+                    const POST: &[&[u8]] = &[b"\n", b"\r\n", b" ", b"\0", b"T1", b"00", b"\t", b";"];
+                    s.extend_from_slice(POST[*k as usize % POST.len()]);
+                }
                 Mut::Utf8At(p, k) => {
                     let c = UTF8_CHARS[*k as usize % UTF8_CHARS.len()].as_bytes();
                     if s.len() >= c.len() {
@@ -550,6 +567,8 @@ pub fn mut_strategy() -> impl Strategy<Value = Mut> {
         1 => (any::<u16>(), any::<u8>()).prop_map(|(p, x)| Mut::InsertAt(p, x)),
         1 => any::<u16>().prop_map(Mut::RemoveAt),
         1 => utf8_mut_strategy(),
+        1 => any::<u8>().prop_map(Mut::Prepend),
+        1 => any::<u8>().prop_map(Mut::Append),
     ]
 }
 
